@@ -17,6 +17,7 @@ pub fn err_json(e: &LinearizationError) -> Value {
         LinearizationError::NonBinaryLogicOperand(_) => json!({"kind":"NonBinaryLogicOperand"}),
         LinearizationError::NonFiniteConstant(_) => json!({"kind":"NonFiniteConstant"}),
         LinearizationError::InvalidDomain { variable, .. } => json!({"kind":"InvalidDomain","name":variable}),
+        LinearizationError::UndeclaredVariable(n) => json!({"kind":"UndeclaredVariable","name":n}),
         LinearizationError::MissingFiniteBounds { variables, expression, .. } => {
             let mut vs = vec![];
             collect_vars(expression, &mut vs);
